@@ -294,6 +294,14 @@ func (E *Engine) funcValueSpec(st *State, v ssa.Value) *FuncSpec {
 			return s
 		}
 	}
+	// a func value read from a captured variable
+	if u, ok := v.(*ssa.UnOp); ok {
+		if fv, ok := u.X.(*ssa.FreeVar); ok {
+			if s, ok := E.CS.Funcs["paramfn:"+E.cur.fn.Name()+"."+fv.Name()]; ok {
+				return s
+			}
+		}
+	}
 	return nil
 }
 
